@@ -233,6 +233,12 @@ class Accounting(Case):
             # these loops take evo_steps // num_envs steps per generation: with evo_steps < num_envs no step is ever taken
             # and the budget loop cannot end (a configuration error, not judged here)
             v.assume(evo >= E, "off-policy: evo_steps >= num_envs")
+        # divisors are decided up front (one fork per value): steps // checkpoint and steps // evo_steps with both operands
+        # symbolic would be nonlinear integer arithmetic
+        if self.evolve:
+            ck = cint(ck)
+        if loop == "bandit":
+            evo = cint(evo)
         np.random.seed(12345)      # the tournament draws from numpy's global RNG: every re-execution must see the same draws
         multi = ["ag_0", "ag_1"] if loop in ("ma-on", "ma-off") else None
         env = VecEnv(E, multi, bandit=(loop == "bandit"))
